@@ -3,7 +3,7 @@ CONSTANTS Nib = {0, 1, 15}
           KeyLen = 2
           Vals = {10}
           Pad = 0
-          MaxKeys = 9
+          MaxKeys = 6
           Mode = "mc"
           SeqBatches = FALSE
           Depth = 0
